@@ -5,8 +5,10 @@
             report a violation that is not reported on the unmodified tree.  A recorded mutant that
             goes undetected means the checker lost power: ANALYSIS-ERROR (exit 2).  A patch that no
             longer applies to the current tree is skipped and counted.
-  twins   — behaviour-preserving rewrites of every module the check analysed (alpha-rename of all
-            locals + ast.unparse; ast.unparse only).  A twin must never produce a violation that the
+  twins   — behaviour-preserving rewrites: (a) every confirmed refactoring under /verif/twins written for this property by an
+            independent sub-agent (extract helper, merge branches, vectorise, library call, hoist …; each passes the test suite and
+            an old-versus-new equivalence demonstration); (b) generated rewrites of every module the check analysed (alpha-rename
+            of all locals + ast.unparse; ast.unparse only).  A twin must never produce a violation that the
             unmodified tree does not produce; one that does is a false alarm of the checker:
             ANALYSIS-ERROR (exit 2).  "Idiom not recognised" (exit 2 of the inner run) is allowed.
 
@@ -28,6 +30,7 @@ from .twins import reformat, rename_locals
 
 ROOT = os.path.dirname(os.path.dirname(os.path.dirname(os.path.abspath(__file__))))
 SEEDED = os.path.join(ROOT, "seeded")
+TWINS = os.path.join(ROOT, "twins")  # confirmed behaviour-preserving refactorings written by independent sub-agents (patch.diff, demo.py, meta.json)
 PY = "/venv/bin/python" if os.path.exists("/venv/bin/python") else sys.executable
 
 
@@ -64,8 +67,8 @@ def _variant(pid: str, kind: str, arg: str, base_keys: set, files: list[str]) ->
     out = {"kind": kind, "name": arg}
     root = _copy_tree()
     try:
-        if kind == "mutant":
-            patch = os.path.join(SEEDED, arg, "patch.diff")
+        if kind in ("mutant", "twin-refactor"):
+            patch = os.path.join(SEEDED if kind == "mutant" else TWINS, arg, "patch.diff")
             r = subprocess.run(["git", "apply", "--whitespace=nowarn", patch], cwd=root, capture_output=True, text=True)
             if r.returncode:
                 r = subprocess.run(["patch", "-p1", "--no-backup-if-mismatch", "-s", "-i", patch], cwd=root, capture_output=True, text=True)
@@ -110,7 +113,9 @@ def run_selftest(check, repo, jobs: int = 16) -> None:
     pid = check.pid
     base_keys = {(o.rule, o.construct) for o in check.obligations if o.verdict == "violated"}
     files = sorted({repo.modules[q.split(":")[0]].rel for q in check.functions_analysed if q.split(":")[0] in repo.modules})
-    variants = [("mutant", n) for n in seeds_for(pid)] + [("twin-rename", "all analysed modules"), ("twin-reformat", "all analysed modules")]
+    refactors = sorted(n for n in (os.listdir(TWINS) if os.path.isdir(TWINS) else []) if n.startswith(pid + "-") and os.path.exists(os.path.join(TWINS, n, "patch.diff")))
+    variants = [("mutant", n) for n in seeds_for(pid)] + [("twin-refactor", n) for n in refactors] \
+        + [("twin-rename", "all analysed modules"), ("twin-reformat", "all analysed modules")]
     # one twin per analysed module as well: a false alarm is then attributable to one file
     for rel in files:
         variants.append(("twin-rename", rel))
